@@ -374,6 +374,23 @@ def _json(ctx: Ctx, j: Judge, b: go.Built, obj: Any, cv: bool) -> None:
             ok, back = j.call(f"{b.name}.from_dict/other-network", lambda: codec.from_dict(json.loads(text2), cv))
             j.check(P5, "json-round-trip", lambda: ok and back == other, lambda: f"{network}: from_dict(json(to_dict(x))) {'raised ' + repr(back) if not ok else '!= x'} for x = {b.raw.hex()[:200]}", f"{b.name}.from_dict/other-network")
             ctx.probe("json-other-network")
+    if b.name in ("BlockHeader", "Block") and ctx.ch.draw(2, "json.zone?"):
+        # the same header with its time told in another zone: the same instant, the same 80 octets on the wire, and a JSON
+        # form that spells the offset out
+        from dataclasses import replace  # noqa: PLC0415
+        from datetime import timedelta, timezone  # noqa: PLC0415
+
+        minutes = ctx.ch.pick([840, -720, 60, -300, 330, 345, 1, -1], "json.zone")
+        hdr = obj if b.name == "BlockHeader" else obj.header
+        ok, moved = j.call(f"{b.name}.replace/other-zone", lambda: replace(hdr, time=hdr.time.astimezone(timezone(timedelta(minutes=minutes)))))
+        if ok:
+            other = moved if b.name == "BlockHeader" else type(obj)(moved, obj.transactions, check_validity=False)
+            ok, text3 = j.call(f"{b.name}.to_dict/other-zone", lambda: json.dumps(codec.to_dict(other, cv)))
+            if ok:
+                ok, back = j.call(f"{b.name}.from_dict/other-zone", lambda: codec.from_dict(json.loads(text3), cv))
+                same = lambda: ok and back == other and (back if b.name == "BlockHeader" else back.header).serialize(check_validity=False) == hdr.serialize(check_validity=False)  # noqa: E731
+                j.check(P5, "json-round-trip", same, lambda: f"UTC{minutes:+d}min: from_dict(json(to_dict(x))) {'raised ' + repr(back) if not ok else 'is another header: ' + text3[:200]}", f"{b.name}.from_dict/other-zone")
+                ctx.probe("json-other-zone")
     if ctx.cfg.get("faults") and cv:
         _json_walk(ctx, j, b, text, cv)
 
